@@ -138,7 +138,9 @@ def run_props(ctx: Ctx, want, weights=None, n_quick=60, n_thorough=1500, max_ops
     import uuid
     sessions, cases = [], []
     n = ctx.n(n_quick, n_thorough)
+    pool_arg = pool
     for i in range(n):
+        pool = pool_arg(ctx.rng) if callable(pool_arg) else pool_arg      # identifiers the caller passes explicitly (re-used)
         uid_pool = [uuid.UUID(int=1000 + j) for j in range(pool)] if pool else None
         ops = wsh.gen_ops(ctx.rng, ctx.rng.randrange(*max_ops), weights=weights, pool_uids=pool)
         if shape:
